@@ -441,7 +441,12 @@ Eval vm_compute in (mismatches (fun '(r,h,f,v) => set_requires r h f v) oeqb c2)
     ctx.extra["oracle_programs_judged"] = len(progs)
 
 
-PARTS = []
+def _wrappers_part(ctx):
+    from checks import wrappers
+    wrappers.run_part(ctx)
+
+
+PARTS = [_wrappers_part]
 
 FINISH = dict(rule="event sequences enumerated exhaustively up to the stated bound (distinct after truncation at the first raise; "
                    "non-trivial = at least two Enter/Exit events); with-programs: distinct event lists; tables: every row")
